@@ -14,7 +14,7 @@ PROP = {
                   "DNSFilter.CheckHost in up to three orders of the table (built from the configuration and "
                   "through POST /control/rewrite/add) and compared with a reference resolver: exact equality "
                   "where the table is unambiguous for the question, the stated validity predicates otherwise; "
-                  "every order must give the same result; each call runs under a 10 s watchdog and a panic trap. "
+                  "every order must give the same result; each call runs under a 10 s (CPU time of the process) watchdog and a panic trap. "
                   "Exploration: no absence claim.",
     "level_note": "Only the table semantics at filtering.CheckHost are decided here; response assembly "
                   "(CNAME record first, question restored, no upstream call for empty answers) is checked in "
@@ -22,8 +22,8 @@ PROP = {
                   "name the table knows without a value for the type' (both: canonical name, no addresses). "
                   "CNAME answers written in upper case and trailing-dot names are outside the generated domain.",
     "tests": [
-        ("TestVFC06Table", (15000, 100000)),
-        ("TestVFC06Cycles", (3000, 20000)),
+        ("TestVFC06Table", (10000, 30000)),
+        ("TestVFC06Cycles", (2000, 8000)),
     ],
     "plain": ["TestVFC06DocExamples", "TestVFC06RegressWildcardOtherTypeException"],
     "shards": (2, 16),
@@ -41,7 +41,8 @@ PROP = {
         "the reference resolver reads AGHTechDoc 'Rewrites' as: CNAME over address; exact over wildcard; "
         "longest wildcard; follow CNAME; self / 'A' / 'AAAA' entries pass through; cycles only need to terminate "
         "without addresses",
-        "a 10 s watchdog on a call whose median is microseconds is taken as non-termination",
+        "a call whose median is microseconds and that has not returned after the test process burnt 10 s of CPU "
+        "time (user+system, getrusage) since it started is taken as non-terminating",
     ],
     "require_classes": {
         "thorough": [
